@@ -27,7 +27,7 @@ from typing import (
 import lupa.lua51 as lupa
 from lupa.lua51 import lua_type
 
-from .common import MAGIC_RE_PATTERN, is_numbered_arg_name
+from .common import MAGIC_FIRST, MAGIC_RE_PATTERN, is_numbered_arg_name
 from .interwiki import mw_site_interwikiMap
 from .parserfns import (
     PARSER_FUNCTIONS,
@@ -382,6 +382,14 @@ def initialize_lua(ctx: "Wtp") -> None:
     add_empty_sandbox_lua_module(ctx)
 
 
+def _is_nowiki_cookie(ctx: "Wtp", ch: str) -> bool:
+    """True if ``ch`` is the placeholder of a <nowiki>...</nowiki> span."""
+    if len(ch) != 1:
+        return False
+    idx = ord(ch) - MAGIC_FIRST
+    return 0 <= idx < len(ctx.cookies) and ctx.cookies[idx][0] == "N"
+
+
 def call_lua_sandbox(
     ctx: "Wtp",
     invoke_args: Iterable,
@@ -450,7 +458,7 @@ def call_lua_sandbox(
             frame_args = {}
             for k, arg in args.items():
                 arg = re.sub(r"(?si)(<\s*noinclude\s*/\s*>|\n$)", "", arg)
-                frame_args[k] = (arg, False)
+                frame_args[k] = (arg, False, False, False)
         else:
             assert isinstance(args, (list, tuple))
             frame_args = {}
@@ -489,7 +497,15 @@ def call_lua_sandbox(
                 # does not always like them (e.g., remove_links() in
                 # Module:links).
                 arg = re.sub(r"(?si)(<\s*noinclude\s*/\s*>|\n$)", "", arg)
-                frame_args[k] = (arg, m is not None)
+                # The value of a named argument is trimmed once more after it
+                # has been expanded; blanks that <nowiki> protects at either
+                # end ("sep=<nowiki> </nowiki>") are not whitespace to trim.
+                frame_args[k] = (
+                    arg,
+                    m is not None,
+                    _is_nowiki_cookie(ctx, arg[:1]),
+                    _is_nowiki_cookie(ctx, arg[-1:]),
+                )
         frame_args_lt: "_LuaTable" = lua.table_from(frame_args)  # type: ignore[union-attr]
 
         def extensionTag(frame: "_LuaTable", *args: Any) -> str:
